@@ -14,7 +14,8 @@
 (* which error).  C09 is OneResponsePerRequest + the liveness of Worker.    *)
 EXTENDS Integers, Sequences, TLC, Json
 
-CONSTANTS MaxLen        \* histories of at most this many requests
+CONSTANTS MaxLen,       \* histories of at most this many requests
+          Allowed       \* the request symbols (indices into Alphabet) the client may send
 
 \* request alphabet: [sym, class] ; classes decide the admissible answers
 Alphabet == <<
@@ -44,7 +45,14 @@ Alphabet == <<
   [sym |-> "fvalues",  class |-> "cmd"],
   [sym |-> "nosuchcmd", class |-> "cmd"],       \* :frobnicate
   [sym |-> "evalupto", class |-> "evalupto"],
-  [sym |-> "garbage",  class |-> "malformed"]   \* not JSON
+  [sym |-> "garbage",  class |-> "malformed"],  \* not JSON
+  \* composite requests that reach a stopped state in one step
+  [sym |-> "stopthrow", class |-> "source"],    \* def + f()
+  [sym |-> "stopnovar", class |-> "source"],    \* fun h() { nosuchvar1 } h()  (stopped with an empty value stack but Unit)
+  [sym |-> "stoparg",  class |-> "source"],     \* fun k(a: Int, b: Int) { a } k(1, nosuchvar3)  (stopped with values pending)
+  [sym |-> "stoptest", class |-> "source"],     \* test t2 { assert(1 == 2) } then the test runs and fails
+  [sym |-> "replaceBad", class |-> "evalcmd"],  \* :replace nosuchvar2
+  [sym |-> "replaceCall", class |-> "evalcmd"]  \* :replace f()
 >>
 
 \* admissible answer kinds per request class (independent of the state:
@@ -68,6 +76,7 @@ Init == hist = <<>> /\ chan = <<>> /\ answered = <<>> /\ stopped = FALSE /\ aliv
 
 \* the client writes a line; the reader forwards it
 Send(a) ==
+  /\ a \in Allowed
   /\ Len(hist) < MaxLen
   /\ hist' = Append(hist, a)
   /\ chan' = Append(chan, Len(hist) + 1)
